@@ -92,6 +92,23 @@ func runC11(c *run.Ctx) {
 		kind := []string{"iface", "any", "mixed-any"}[i%3]
 		ec := newExecCase(r, gen.SchemaOpts{Args: true, Mutation: true},
 			gen.DocOpts{Frags: true, Dirs: true, Vars: true, Aliases: true, Mutation: true, Depth: 2 + r.Intn(2), MaxOps: 3})
+		if i%6 == 4 {
+			// a document ggql parses although it is odd: a selection set under a leaf field. Whatever ggql makes of it
+			// (it ignores the set), it must make the same of it on every resolution of the parsed executable
+			var leaves []*model.Field
+			for _, l := range ec.DC.Doc.AllSelLists() {
+				for _, sel := range *l {
+					if f, isF := sel.(*model.Field); isF && len(f.Sels) == 0 && !strings.HasPrefix(f.Name, "__") {
+						leaves = append(leaves, f)
+					}
+				}
+			}
+			if len(leaves) > 0 {
+				leaves[r.Intn(len(leaves))].Sels = []model.Sel{&model.Field{Name: "zzInner"}}
+				ec.Text = ec.DC.Doc.Print(model.LayoutN(ec.Layout))
+				c.Bucket("history_length", "selection-set-under-a-leaf")
+			}
+		}
 		h, err := back.Build(kind, ec.S, ec.SDL, ec.G)
 		if err != nil {
 			c.Violation("c11-schema-rejected", ec.replay(kind, "", map[string]interface{}{"error": err.Error()}))
@@ -209,6 +226,7 @@ func runC11(c *run.Ctx) {
 		c.Eval("zoo|"+text+fmt.Sprint(hist), true)
 	}
 	steps += c11Menagerie(c)
+	steps += c11SuppliedThenOmitted(c)
 	c.Set("resolve_calls_compared", steps)
 }
 
@@ -318,4 +336,93 @@ func resolveZoo(root *ggql.Root, exe *ggql.Executable, op string, vars map[strin
 		}
 	}
 	return out
+}
+
+// ---------------------------------------------------------------- operations that differ in what they supply
+
+type c11BoxRoot struct{}
+
+func (r *c11BoxRoot) Resolve(field *ggql.Field, args map[string]interface{}) (interface{}, error) {
+	switch field.Name {
+	case "query", "inner":
+		return r, nil
+	case "boxes":
+		return []interface{}{r, r}, nil
+	}
+	return fmt.Sprintf("%s%v", field.Name, ref.Render(ref.Canon(args))), nil
+}
+
+const c11BoxSDL = `type Query { box(width: Int!, tag: String): String crate(width: Int!, height: Int! = 2): String inner: Query boxes: [Query] }`
+
+// c11SuppliedThenOmitted: one document, several operations that supply DIFFERENT subsets of the arguments of the same
+// fields (one of them leaves a required argument out, which is that operation's own error). The executable is parsed once
+// and the operations are resolved in random order; every answer must equal the answer the same operation gets from a
+// fresh parse on a FRESH root - what one resolution supplied or omitted is nothing the next one may inherit.
+func c11SuppliedThenOmitted(c *run.Ctx) int {
+	doc := `query Given { box(width: 3, tag: "t") inner { crate(width: 1, height: 5) } boxes { box(width: 4) } }
+query Missing { box(tag: "only") inner { crate(height: 7) } boxes { box(tag: "z") } }
+query Partly($w: Int) { box(width: $w) inner { crate(width: 2) } }
+query Plain { inner { inner { boxes { crate(width: 9) } } } }`
+	ops := []struct {
+		name string
+		vars map[string]interface{}
+	}{{"Given", nil}, {"Missing", nil}, {"Partly", map[string]interface{}{"w": 6}}, {"Partly", nil}, {"Plain", nil}}
+	mk := func() (*ggql.Root, *ggql.Executable, error) {
+		root := ggql.NewRoot(&c11BoxRoot{})
+		if err := root.ParseString(c11BoxSDL); err != nil {
+			return nil, nil, err
+		}
+		exe, err := root.ParseExecutableString(doc)
+		return root, exe, err
+	}
+	run1 := func(root *ggql.Root, exe *ggql.Executable, op string, vars map[string]interface{}) string {
+		var res map[string]interface{}
+		var err error
+		pv, _ := run.Protect(func() { res, err = root.ResolveExecutable(exe, op, copyVars(vars)) })
+		msgs := ""
+		if err != nil {
+			msgs = err.Error()
+		}
+		return fmt.Sprintf("data=%s errors=%s panic=%v", ref.Render(ref.Canon(res["data"])), msgs, pv)
+	}
+	alone := make([]string, len(ops))
+	for i, o := range ops {
+		root, exe, err := mk()
+		if err != nil {
+			c.Violation("c11-parse", map[string]interface{}{"document": doc, "error": err.Error()})
+			return 0
+		}
+		alone[i] = run1(root, exe, o.name, o.vars)
+	}
+	done := 0
+	n := c.N(60, 1500)
+	for i := 0; i < n && !c.TooMany(); i++ {
+		r := c.Rand(1200000 + i)
+		root, exe, err := mk()
+		if err != nil {
+			return done
+		}
+		var hist []string
+		for step := 0; step < 3+r.Intn(5); step++ {
+			oi := r.Intn(len(ops))
+			e := exe
+			if r.Intn(3) == 0 {
+				// a fresh parse on the SAME root: the root itself must not remember either
+				if e2, perr := root.ParseExecutableString(doc); perr == nil {
+					e = e2
+				}
+			}
+			got := run1(root, e, ops[oi].name, ops[oi].vars)
+			hist = append(hist, fmt.Sprintf("%s %v", ops[oi].name, ops[oi].vars))
+			done++
+			c.Count("calls_compared", 1)
+			if got != alone[oi] {
+				c.Violation("c11-stale", map[string]interface{}{"sdl": c11BoxSDL, "document": doc, "history": hist, "step": step, "after_the_history": got, "on_a_fresh_root": alone[oi]})
+				break
+			}
+		}
+		c.Eval("supplied-then-omitted|"+strings.Join(hist, "|"), true)
+		c.Bucket("history_length", "operations-supplying-different-arguments")
+	}
+	return done
 }
